@@ -298,14 +298,16 @@ class Verdict:
             log("SPEC-DRIFT: property=%s %s" % (self.prop, d))
         seen = set()
         for sig, desc, path in self.violations:
-            if path in seen:
+            key = (sig.get("check"), sig.get("fault"), sig.get("at"), sig.get("mode"))
+            if key in seen:
                 continue
-            seen.add(path)
+            seen.add(key)
             log("VIOLATION property=%s replay=%s" % (self.prop, path))
-            log("  " + desc)
-            if len(seen) >= 20:
-                log("  ... %d more" % (len(self.violations) - 20))
+            log("  " + desc[:600])
+            if len(seen) >= 12:
                 break
+        if len(self.violations) > len(seen):
+            log("  (%d violating cases in total; one line per distinct class shown)" % len(self.violations))
         log("[%s/%s] evaluations=%d distinct=%d states=%d traces=%d violations=%d known=%d wall=%.1fs" % (
             self.prop, self.tier, self.cov["evaluations"], self.cov["distinct_nontrivial"], self.cov["states"],
             self.cov["traces_validated_against_impl"], len(self.violations), len(self.known_hits),
